@@ -66,6 +66,11 @@ CHECKS = {
          "EmbSpace programs (<=1 / <=2 deviations) x a buffer set containing equal, covered-bit-differing, padding-only-differing and truncated buffers (every single-byte flip of 12/16 bases): Equals on ALL ordered pairs, both directions, equals the reference logical equality; TryToCopyFrom from every source into destinations of every length 0..L+2 (0xEE-filled): result, copied bytes, untouched tail, destination Ok and Equals source; overlapping copies at offsets -3..+3 behave like memmove.",
          "Trusted: vk/refsem.py logical_equal; view Ok()/SizeInBytes() as decided by C01 inside the copy oracle. NaN float payloads are unspecified for Equals.",
          "DESIGN.md section 3, C20"),
+ "C19": ("exploration",
+         "deviation-bounded exhaustive enumeration of enum definitions, accepted ones compiled and every helper checked in a generated driver against the generator's AST",
+         "Every enum within 2 (quick) / 3 (thorough) deviations of a default (1-3 enumerators over name, value incl. 64-bit extremes and duplicates, is_signed, maximum_bits, enum_case on the enum / module / value): underlying signedness and width, every C++ spelling with its exact value, TryToGetEnumFromName (declared names only; other names, kCamel spellings, '', numbers, nullptr rejected), TryToGetNameFromEnum (first declared name; null for undeclared neighbours and range extremes), EnumIsKnown, and an enum field of width maximum_bits writes and reads back every in-range value; enums are packed 25 per header so that one definition influencing another is detected.",
+         "Trusted: the value/spelling model in checks/c19.py. Known findings: collide:kCamelCase, signed-enum-narrow.",
+         "DESIGN.md section 3, C19"),
 }
 NOT_YET = "check not built yet in this round (planned in DESIGN.md section 3); no claim made"
 
